@@ -55,7 +55,7 @@ def generate(ctx):
         gbfeats = [f for f in feats if f.named] if suffix == "gb" else feats
         if not gbfeats:
             continue
-        annob = anno.render_genbank(genome, gbfeats, rng) if suffix == "gb" else anno.render_gff(genome, feats)
+        annob = anno.render_genbank(genome, gbfeats, rng) if suffix == "gb" else anno.render_gff(genome, feats, mix=rng)
         append = rng.random() < 0.7
         nontriv = any(f.strand == "-" or len(f.segments) > 1 for f in feats) or "-" in ref_row
         cs.append(vcommon.variants_case(cid, msa, refid, annob, suffix,
